@@ -28,15 +28,39 @@ Definition mem_N (c : N) (l : list N) : bool := existsb (N.eqb c) l.
 (* ! # % & * + - . / ; < = > ? @ ^ ` | ~ *)
 Definition is_operator_char (c : N) : bool :=
   mem_N c [33; 35; 37; 38; 42; 43; 45; 46; 47; 59; 60; 61; 62; 63; 64; 94; 96; 124; 126].
-(* braces, brackets, parentheses, comma, double quote, single quote, space, tab, LF, CR
+(* braces, brackets, parentheses, comma, double quote, single quote, space, tab, LF, CR, VT, FF
    (the case -1 = end of input is not a byte) *)
 Definition is_stop_char (c : N) : bool :=
-  mem_N c [123; 125; 91; 93; 40; 41; 44; 34; 39; 32; 9; 10; 13].
-Definition is_whitespace (c : N) : bool := mem_N c [32; 9; 10; 13].
+  mem_N c [123; 125; 91; 93; 40; 41; 44; 34; 39; 32; 9; 10; 13; 11; 12].
+Definition is_whitespace (c : N) : bool := mem_N c [32; 9; 10; 13; 11; 12].
 
 (* ---- symbolNeedsQuoting ------------------------------------------------------------------ *)
 Definition keywords : list text :=
   [ []; s "null"; s "true"; s "false"; s "nan" ].
+(* looksLikeVersionMarker: $ion_<digits>_<digits> *)
+Fixpoint span_digits (l : list N) : list N * list N :=
+  match l with
+  | c :: r => if is_digit_c c then let '(d, t) := span_digits r in (c :: d, t) else ([], l)
+  | [] => ([], [])
+  end.
+Fixpoint strip_prefix (p l : list N) : option (list N) :=
+  match p, l with
+  | [], _ => Some l
+  | a :: p', b :: l' => if a =? b then strip_prefix p' l' else None
+  | _ :: _, [] => None
+  end.
+Definition looks_like_version_marker (sym : text) : bool :=
+  match strip_prefix (s "$ion_") sym with
+  | Some rest =>
+    let '(d1, r1) := span_digits rest in
+    match d1, r1 with
+    | _ :: _, 95 :: r2 =>
+      let '(d2, r3) := span_digits r2 in
+      match d2, r3 with _ :: _, [] => true | _, _ => false end
+    | _, _ => false
+    end
+  | None => false
+  end.
 Definition symbol_needs_quoting (sym : text) : bool :=
   if existsb (list_eqb sym) keywords then true
   else match sym with
@@ -45,6 +69,8 @@ Definition symbol_needs_quoting (sym : text) : bool :=
                    (* '$' digits that symbolIdentifier rejects (does not fit an int): ordinary text *)
                    || ((c =? 36) && negb (list_eqb r []) && forallb is_digit_c r
                        && match symbol_identifier sym with Some _ => false | None => true end)
+                   (* a bare $ion_1_0 at top level is a version marker, not a symbol value *)
+                   || looks_like_version_marker sym
        end.
 
 (* ---- writeEscapedChar ----------------------------------------------------------------------- *)
